@@ -97,7 +97,8 @@ Theorem includes_closed_gen : forall (l : lang_cfg) q omit ts t i,
   closed q ts = true -> In t ts -> In i (include_list l q omit t) ->
   In i (map (punct l) (outputs l ts))
   \/ (omit = false /\ In i (map (punct l) (support_outputs l)))
-  \/ In i (lc_std l (direct q t)).
+  \/ In i (lc_std l (direct q t))
+  \/ In i (lc_tmpl_inc l omit).
 Proof.
   intros l q omit ts t i Hs Hn Hc Ht Hi. unfold include_list in Hi.
   apply in_app_or in Hi. destruct Hi as [Hi|Hi].
@@ -107,7 +108,7 @@ Proof.
     unfold out_path, inc_path. rewrite Hs, Hn. reflexivity.
   - apply in_app_or in Hi. destruct Hi as [Hi|Hi].
     + right; left. destruct omit; [contradiction|]. split; auto. rewrite <- support_paths_agree. exact Hi.
-    + right; right. exact Hi.
+    + apply in_app_or in Hi. destruct Hi as [Hi|Hi]; [right; right; left; exact Hi|right; right; right; exact Hi].
 Qed.
 
 (* ---------------------------------------------------------------------------------- *)
@@ -138,15 +139,16 @@ Qed.
 
 (* every package a type module imports, and every parent package of it, has its generated namespace file *)
 Theorem py_imports_closed_gen : forall (l : lang_cfg) q ts t ns p,
+  lc_has_ns_files l = true ->
   closed q ts = true -> In t ts -> In ns (import_namespaces t) -> In p (prefixes ns) ->
   In (import_target l p) (ns_outputs l ts).
 Proof.
-  intros l q ts t ns p Hc Ht Hns Hp.
+  intros l q ts t ns p Hgate Hc Ht Hns Hp.
   unfold import_namespaces in Hns. apply dedup_ns_sub in Hns. apply in_flat_map in Hns.
   destruct Hns as [a [Ha Hin]]. destruct (comp_of a) as [c|] eqn:Ec; [|contradiction].
   destruct Hin as [<-|[]].
   destruct (closed_defined q ts t c Hc Ht (direct_has_refs q t a c Ha Ec)) as [d [Hd Hid]].
-  unfold ns_outputs, import_target. apply in_map_iff. exists p. split; [reflexivity|]. unfold all_namespaces. apply dedup_ns_in0.
+  unfold ns_outputs, import_target. rewrite Hgate. apply in_map_iff. exists p. split; [reflexivity|]. unfold all_namespaces. apply dedup_ns_in0.
   apply in_flat_map. exists d. split; auto. rewrite Hid. exact Hp.
 Qed.
 
@@ -164,6 +166,32 @@ Theorem type_file_in_package_dir : forall (l : lang_cfg) t,
             = ns_dir (lc_sid l) (lc_dir_idt l) (ti_ns t) ++ [f].
 Proof.
   intros l t Hs He. eexists. unfold make_path, ns_dir, sid_if. rewrite Hs, He. reflexivity.
+Qed.
+
+(* Namespace.j2: `from <full_reference_name> import ...` names the module <ns components, default id type>.<short reference name,
+   default id type>; its file is make_path (output-side id types) -- the same components when the id types strop alike *)
+Definition init_import_module (l : lang_cfg) (t : tyid) : list str :=
+  map (sid_if (lc_sid l) (lc_stropping l) (lc_default_idt l)) (ti_ns t) ++ [short_ref (lc_sid l) (lc_stropping l) (lc_default_idt l) t].
+
+Theorem py_init_imports_closed_gen : forall (l : lang_cfg) ts d,
+  In d ts ->
+  (forall c, In c (ti_ns (td_id d)) -> lc_sid l (lc_default_idt l) c = lc_sid l (lc_out_ns_idt l) c) ->
+  lc_sid l (lc_default_idt l) (versioned (td_id d)) = lc_sid l (lc_out_short_idt l) (versioned (td_id d)) ->
+  stem (short_ref (lc_sid l) (lc_stropping l) (lc_default_idt l) (td_id d)) = short_ref (lc_sid l) (lc_stropping l) (lc_default_idt l) (td_id d) ->
+  In (posix (map (fun c => c) (removelast (init_import_module l (td_id d)))
+             ++ [last (init_import_module l (td_id d)) [] ++ lc_ext l])) (outputs l ts).
+Proof.
+  intros l ts d Hd Hns Hshort Hstem. unfold outputs. apply in_map_iff. exists d. split; [|exact Hd].
+  unfold out_path, make_path, init_import_module. f_equal.
+  rewrite map_id. rewrite removelast_last, last_last.
+  assert (E1 : map (sid_if (lc_sid l) (lc_stropping l) (lc_out_ns_idt l)) (ti_ns (td_id d))
+             = map (sid_if (lc_sid l) (lc_stropping l) (lc_default_idt l)) (ti_ns (td_id d))).
+  { apply map_ext_in. intros c Hc. unfold sid_if. destruct (lc_stropping l); auto. symmetry. apply Hns. exact Hc. }
+  rewrite E1. f_equal. f_equal. unfold with_suffix.
+  assert (E2 : short_ref (lc_sid l) (lc_stropping l) (lc_out_short_idt l) (td_id d)
+             = short_ref (lc_sid l) (lc_stropping l) (lc_default_idt l) (td_id d)).
+  { unfold short_ref, sid_if. destruct (lc_stropping l); auto. }
+  rewrite E2, Hstem. reflexivity.
 Qed.
 
 (* ---------------------------------------------------------------------------------- *)
